@@ -300,7 +300,6 @@ PROPS["C42"] = {
         H(TOP, "c42_kx_cpulist_part_denotation", "parse_cpulist (loop body region)", "appended ids == denotation of the part (singleton / inclusive range / nothing), ascending, frame preserved, no panic; all ids in usize",
           lane="KX", bound="range width <= 4 (the `for c in a..=b` loop)"),
         {"name": TOP + "::verif_kani::whole::c42_kx_parse_cpulist_whole", "fn": "parse_cpulist (whole function body on carriers)", "contract": "result strictly increasing and exactly the union of what the parts denote (singletons, inclusive ranges, junk ignored)", "lane": "KX", "bound": "<= 2 parts, ranges <= 3 wide, ids < 6", "tier": "quick", "finding": None},
-        H(TOP, "c42_kx_cpulist_tail_sorted_set", "parse_cpulist (tail region `out.sort_unstable(); out.dedup();`)", "result strictly increasing and the same set of ids as collected, for any order and repetitions", lane="KX", bound="<= 4 collected ids"),
     ],
     "trusted_base": [
         "carrier contracts on std str (R6): trim keeps the parse result, is_empty, split_once('-') splits at the first '-', parse::<usize>() is Ok exactly for decimal usize text",
